@@ -76,6 +76,12 @@ func Run(run *kernel.Run, p Params) {
 				o.A, o.B, o.C = t.Choose(st, "a", 8), t.Choose(st, "b", 8), t.Choose(st, "c", 8)
 			} else {
 				o.A, o.B, o.C = focusObj[0], focusObj[1], focusObj[2]
+				// ... sometimes with the first two objects the other way
+				// round: x.Op(y) in one caller while y.Op(x) runs in another
+				// (per-object locks taken in argument order)
+				if t.Chance(st, "mirror", 1, 4) {
+					o.A, o.B = o.B, o.A
+				}
 			}
 			o.Seed = t.U64(st, "seed")
 			ops[ti] = append(ops[ti], o)
